@@ -234,6 +234,9 @@ type rejReason struct {
 
 // collectRejections enumerates the rejecting branches of fn and, through module-internal callees whose
 // failure is the reason of a branch, of the whole verification tree below it.
+// rejectFoundMode: functions being examined as search helpers (reasons = conditions of returning an index).
+var rejectFoundMode = map[*ssa.Function]bool{}
+
 func collectRejections(P *Program, fn *ssa.Function, depth int, seenFn map[string]bool, out *[]rejReason) int {
 	if fn == nil || fn.Blocks == nil || depth > 6 {
 		return 0
@@ -252,7 +255,8 @@ func collectRejections(P *Program, fn *ssa.Function, depth int, seenFn map[strin
 			sp.Bool = i
 		}
 	}
-	if sp.Err < 0 && sp.Bool < 0 {
+	foundMode := rejectFoundMode[fn]
+	if sp.Err < 0 && sp.Bool < 0 && !foundMode {
 		return 0
 	}
 	be := P.bigEval(fn)
@@ -301,6 +305,16 @@ func collectRejections(P *Program, fn *ssa.Function, depth int, seenFn map[strin
 				record(Atom{Fn: fn, V: e, Want: a.Want}, pos)
 			}
 			return
+		}
+		// the caller rejects because a search helper found an offender: the helper's own conditions for returning an
+		// index are the reasons
+		if sc, ok := searchFound(a); ok {
+			if g := staticCallee(sc); g != nil {
+				rejectFoundMode[g] = true
+				bindCall(sc, g, func() { n += collectRejections(P, g, depth+1, seenFn, out) })
+				delete(rejectFoundMode, g)
+				return
+			}
 		}
 		n++
 		kind, text := reasonOf(a, be)
@@ -352,6 +366,19 @@ func collectRejections(P *Program, fn *ssa.Function, depth int, seenFn map[strin
 			return
 		}
 		record(Atom{Fn: fn, V: v, Want: False}, P.Pos(r.Pos()))
+	}
+	if foundMode {
+		for _, r := range returnsOf(fn) {
+			if retCount(r) != 1 {
+				continue
+			}
+			if c, ok := constInt(retValue(r, 0)); ok && c < 0 {
+				continue
+			}
+			intoBlock(r.Block(), 0, map[*ssa.BasicBlock]bool{})
+			_ = knownNonNegative
+		}
+		return n
 	}
 	for _, r := range returnsOf(fn) {
 		if sp.Err >= 0 {
